@@ -240,6 +240,32 @@ func c13LogFirst(c *Ctx) {
 			}
 		}
 		c.check(okp, "log-first", "processMessage → processLoop", p.Pos(fnPos(f)), "rule actions are appended after the WriteWAL of the message", "processMessage does not hand processLoop a list that starts with the message's WriteWAL entry")
+		// every message that was recorded in the vote counter is logged, whatever its height: each return carries the WriteWAL
+		walList := func(v ssa.Value) bool {
+			if sl, ok := v.(*ssa.Slice); ok {
+				if a, ok := sl.X.(*ssa.Alloc); ok {
+					if els := arrayLiteral(a); len(els) > 0 && strings.Contains(typeShort(stripIface(els[0]).Type()), "actions.WriteWAL") {
+						return true
+					}
+				}
+			}
+			return false
+		}
+		okr := true
+		for _, ret := range returnsOf(f) {
+			r := ret.Results[0]
+			switch x := r.(type) {
+			case *ssa.Call:
+				if x.Call.StaticCallee() == nil || canonGeneric(x.Call.StaticCallee()).Name() != "processLoop" || len(x.Call.Args) < 2 || !walList(x.Call.Args[1]) {
+					okr = false
+				}
+			default:
+				if !walList(r) {
+					okr = false
+				}
+			}
+		}
+		c.check(okr, "log-first", "processMessage: every return carries the WriteWAL", p.Pos(fnPos(f)), "a message recorded in the vote counter is logged even when it belongs to another height", "processMessage can return without the WriteWAL entry of the message (e.g. for a message of a future height): the message is acted on when its height starts, but after a crash the replay lacks it and the recovered validator contradicts its earlier vote")
 	} else {
 		c.und("log-first", "processMessage", "", "anchor not found")
 	}
